@@ -590,6 +590,23 @@ func execA(c caseA) (v verdict, err error) {
 			bad.DeclaredLen = &full
 		}
 	}
+	if c.Body == "te" && (strings.HasSuffix(bad.Path, "/") || (!strings.HasPrefix(entry.Name, "PutObject") && !strings.HasPrefix(entry.Name, "UploadPart"))) {
+		// (uploads of file objects need the length up front - the gateway answers a valid one without it with an
+		// error as well, nothing to learn there)
+		// the same bytes without an announced length: HTTP chunked transfer coding (a handler that decides by the
+		// announced length alone has nothing to go by)
+		p := bad.Payload()
+		var enc []byte
+		for len(p) > 0 {
+			n := min(len(p), 7)
+			enc = append(enc, []byte(fmt.Sprintf("%x\r\n", n))...)
+			enc = append(append(enc, p[:n]...), '\r', '\n')
+			p = p[n:]
+		}
+		enc = append(enc, []byte("0\r\n\r\n")...)
+		bad.Body, bad.BodyLen, bad.DeclaredLen = enc, 0, nil
+		bad.Set("Transfer-Encoding", "chunked")
+	}
 	before := gw.Snap(w.fx.Dirs(), nil)
 	resp, terr := s3c.Do(w.t, bad)
 	after := gw.Snap(w.fx.Dirs(), nil)
@@ -662,7 +679,7 @@ func genCase(t *rapid.T) caseA {
 		c.Body = "default"
 	} else {
 		c.Defect = rapid.SampledFrom(defects).Draw(t, "defect")
-		c.Body = rapid.SampledFrom([]string{"default", "default", "default", "none", "big", "chunked"}).Draw(t, "body")
+		c.Body = rapid.SampledFrom([]string{"default", "default", "default", "none", "big", "chunked", "te"}).Draw(t, "body")
 		c.Short = rapid.IntRange(0, 5).Draw(t, "short") == 0
 	}
 	c.Arg = rapid.IntRange(0, 63).Draw(t, "arg")
